@@ -104,6 +104,14 @@ def cases(tier, seed):
                 for im in (0, 2):
                     yield {"kind": "npz", "nw": nw, "lat": lat, "rs": "shell1", "cen": "outside",
                            "group": GROUPS[lat][ig], "mats": im}
+    # "square" systems, num_wann == number of R-vectors (>= 2): an array [iR, m, n, ...] then has three equal leading
+    # dimensions, so that nothing about its layout can be guessed from its shape
+    for nw, rs in ((5, "chain"), (7, "shell1")) + (() if quick else ((9, "lopsided"), (15, "r15"))):
+        for lat in lats[:2]:
+            for im in range(len(MATSETS)):
+                yield {"kind": "npz", "nw": nw, "lat": lat, "rs": rs, "cen": "generic", "group": [], "mats": im}
+            for fmt in ("hr", "tb"):
+                yield {"kind": fmt, "nw": nw, "lat": lat, "rs": rs, "cen": "generic"}
     for nw in (1, 2, 3):   # 2D systems: periodic flags must survive
         for im in range(len(MATSETS)):
             yield {"kind": "npz", "nw": nw, "lat": "hex", "rs": "planar", "cen": "generic", "group": ["C3z"],
